@@ -342,8 +342,9 @@ func runC03(c *Ctx) {
 			})
 			c.Check("I4-positional", fmt.Sprintf("%s#call%d", fnName(f), k), okA && okR, in.Pos(), "the host function must be called with the caller's arguments coerced by ParamsTypeChange against that same function, and its results reduced by GetRawTypeValue")
 		})
+		c.Check("I4-positional", fnName(f)+"#calls-the-host-function", k > 0, f.Pos(), "%s makes %d reflect call(s) of the host function", fnName(f), k)
 	}
-	c.Min("I4-positional", 6)
+	c.Min("I4-positional", 7)
 	// ---- I6: the element addressed is the one named by the key, the value stored is the one assigned
 	c.ruleI6("I6-key-and-value-reach-access")
 	c.ruleI7("I7-dotted-name-plumbing")
@@ -777,6 +778,7 @@ func (c *Ctx) ruleI6(rule string) {
 			c.Check(rule, fnName(f)+"#assigned-value-stored", ok, f.Pos(), "the assigned value must reach the stored operand of Set / SetMapIndex")
 			// every Set / SetMapIndex stores something derived from the assigned value
 			n := 0
+			kinds := map[string]int{}
 			eachInstr(f, func(in ssa.Instruction) {
 				name, cc := reflectMethod(in)
 				if cc == nil || (name != "Set" && name != "SetMapIndex") {
@@ -791,13 +793,17 @@ func (c *Ctx) ruleI6(rule string) {
 					}
 				}
 				c.Check(rule, fmt.Sprintf("%s#%s%d-stores-assigned-value", fnName(f), name, n), okV, in.Pos(), "the element must receive the assigned value, coerced to the element type by GetWantedValue (got %s)", x.Describe(stored))
+				kinds[name]++
 			})
+			for _, nm := range []string{"Set", "SetMapIndex"} {
+				c.Check(rule, fnName(f)+"#writes-through-"+nm, kinds[nm] > 0, f.Pos(), "%s writes elements through reflect %s at %d site(s)", fnName(f), nm, kinds[nm])
+			}
 		}
 		if k == 0 {
 			c.Lost(rule, "lookups of the key variable in "+fnName(f))
 		}
 	}
-	c.Min(rule, 20)
+	c.Min(rule, 14)
 }
 
 // ruleI7: dotted names a.b and a.b.c are taken apart positionally: the object is looked up under
@@ -805,6 +811,7 @@ func (c *Ctx) ruleI6(rule string) {
 // result of the first step.
 func (c *Ctx) ruleI7(rule string) {
 	n := 0
+	perFn := map[string]int{}
 	for _, f := range c.Methods("context", "DataContext") {
 		switch f.Name() {
 		case "GetValue", "SetValue", "ExecMethod", "ExecThreeLevel":
@@ -830,11 +837,31 @@ func (c *Ctx) ruleI7(rule string) {
 		}
 		// depth of an object value: 0 = looked up in the injected table / locals under part 0,
 		// 1 = result of a GetStructAttributeValue step on a depth-0 object
-		var depth func(v ssa.Value, d int) (int, bool)
-		depth = func(v ssa.Value, d int) (int, bool) {
+		var depth, depth1 func(v ssa.Value, at ssa.Instruction, d int) (int, bool)
+		// an object kept in a variable (`obj, ok := lookup(...)`): every value it can hold at the
+		// use must be an object of one and the same depth
+		depth = func(v ssa.Value, at ssa.Instruction, d int) (int, bool) {
 			if d > 4 {
 				return 0, false
 			}
+			pvs := x.ValuesAt(v, at)
+			if len(pvs) == 0 {
+				return 0, false
+			}
+			res := -1
+			for _, pv := range pvs {
+				if pv.V == nil || pv.Outside {
+					return 0, false
+				}
+				dd, ok := depth1(pv.V, at, d)
+				if !ok || (res >= 0 && dd != res) {
+					return 0, false
+				}
+				res = dd
+			}
+			return res, true
+		}
+		depth1 = func(v ssa.Value, at ssa.Instruction, d int) (int, bool) {
 			o := x.Origin(v)
 			ex, ok := o.(*ssa.Extract)
 			if !ok || ex.Index != 0 {
@@ -847,7 +874,7 @@ func (c *Ctx) ruleI7(rule string) {
 				}
 			case *ssa.Call:
 				if calleeIs(t, pCore, "", "GetStructAttributeValue") {
-					if dd, ok := depth(t.Call.Args[0], d+1); ok {
+					if dd, ok := depth(t.Call.Args[0], t, d+1); ok {
 						return dd + 1, true
 					}
 				}
@@ -872,7 +899,8 @@ func (c *Ctx) ruleI7(rule string) {
 			k++
 			n++
 			key := fmt.Sprintf("%s#%s%d", fnName(f), cal.Name(), k)
-			d, okD := depth(call.Call.Args[0], 0)
+			d, okD := depth(call.Call.Args[0], call, 0)
+			perFn[f.Name()]++
 			pi, okP := partIdx(call.Call.Args[1])
 			c.Check(rule, key, okD && okP && pi == int64(d+1), in.Pos(), "%s on an object reached after %d step(s) must use part %d of the dotted name (uses part %d; object/part recognised: %v/%v)", cal.Name(), d, d+1, pi, okD, okP)
 		})
@@ -880,5 +908,8 @@ func (c *Ctx) ruleI7(rule string) {
 	if n == 0 {
 		c.Lost(rule, "field / method steps in DataContext")
 	}
-	c.Min(rule, 14)
+	for _, fnm := range []string{"GetValue", "SetValue", "ExecMethod", "ExecThreeLevel"} {
+		c.Check(rule, "DataContext."+fnm+"#has-steps", perFn[fnm] > 0, token.NoPos, "%s resolves its dotted name through %d field / method step(s)", fnm, perFn[fnm])
+	}
+	c.Min(rule, 8)
 }
